@@ -39,6 +39,19 @@ def receiver_field(body, c):
     return None
 
 
+_LEN_TESTS = {}      # path of a bool method that returns `len(self.<field>) <op> <const>` -> that comparison (`is_stack_full`)
+
+
+def collect_len_tests(F):
+    _LEN_TESTS.clear()
+    for p, b in F.bodies.items():
+        if b.crate != "abasic_core" or b.local_ty(0) != "bool" or b.self_adt != PROGRAM or b.natural_loops():
+            continue
+        e = strip_expr(b.binding_expr(0))
+        if e[0] == "binop" and e[1] in ("Eq", "Ge", "Gt", "Lt", "Le", "Ne") and len(b.calls()) == 1:
+            _LEN_TESTS[p] = e
+
+
 def find_len_guards(body, field, limit):
     """switch blocks testing len(self.<field>) against `limit`: [(switch_bb, over_target, under_target, op)]"""
     out = []
@@ -47,6 +60,8 @@ def find_len_guards(body, field, limit):
         if t["k"] != "switch":
             continue
         e = strip_expr(body.expr(t["discr"]))
+        if e[0] == "call" and e[1] in _LEN_TESTS and e[2] and strip_refs(e[2][0]) == ("param", 0):
+            e = _LEN_TESTS[e[1]]          # the named test, on the same `self`
         if e[0] != "binop" or e[1] not in ("Eq", "Ge", "Gt", "Lt", "Le", "Ne"):
             continue
         a, c = strip_expr(e[2]), strip_expr(e[3])
@@ -194,6 +209,7 @@ def subscript_conversion(ck, F):
 
 
 def run(ck, F, E):
+    collect_len_tests(F)
     loop_names_unique(ck, F)
     subscript_conversion(ck, F)
     limit = F.const("program::STACK_LIMIT")
@@ -374,14 +390,17 @@ def dim_rules(ck, F, E, maxel):
     # get_linear_index rejects wrong arity and out-of-range subscripts
     gl = get_fn(ck, F, "DimArray::get_linear_index")
     if gl is not None:
-        bads = [a for a in region_aggregates(gl, gl.reachable()) if a[1] == "BadSubscript"]
+        from lib import with_closures
+        bads = []
         cmp_ops = []
-        for b in sorted(gl.reachable()):
-            t = gl.term(b)
-            if t["k"] == "switch":
-                e = strip_expr(gl.expr(t["discr"]))
-                if e[0] == "binop":
-                    cmp_ops.append(e[1])
+        for part in with_closures(F, gl):      # the per-axis test may sit in a `try_fold` / `map` closure
+            bads += [a for a in region_aggregates(part, part.reachable()) if a[1] == "BadSubscript"]
+            for b in sorted(part.reachable()):
+                t = part.term(b)
+                if t["k"] == "switch":
+                    e = strip_expr(part.expr(t["discr"]))
+                    if e[0] == "binop":
+                        cmp_ops.append(e[1])
         ck.require(len(bads) >= 2 and "Ne" in cmp_ops or "Eq" in cmp_ops, "C16:DIM:arity-check", "INV-DIM",
                    "get_linear_index compares arity and returns BadSubscript",
                    "get_linear_index lost its arity check", gl.span)
